@@ -158,9 +158,9 @@ func (msg *connectionTune) read(r io.Reader) (err error) {
 }
 
 type connectionTuneOk struct {
-	ChannelMax uint16
-	FrameMax   uint32
-	Heartbeat  uint16
+	ChannelMax uint16 `json:"channelMax"`
+	FrameMax   uint32 `json:"frameMax"`
+	Heartbeat  uint16 `json:"heartbeat"`
 }
 
 func (msg *connectionTuneOk) read(r io.Reader) (err error) {
